@@ -24,7 +24,7 @@ CHECKS = {
         "note": "Trusted: the harness's own substitution and the mutually exclusive strict type pool; pydantic multi-level / nested open generics excluded per integrations.rst; strict coercion only.",
     },
     "C03": {
-        "technique": "property-based testing against a reference model: Hypothesis-generated (model shape, 1-4 stacked name_mapping providers from the full parameter grammar) programs, each evaluated under the three debug modes on inputs built by walking the reference layout (every mapped key present / absent / ill-typed, container nodes of right / wrong kind, unknown keys, short / long lists); oracle = independent reference layout model written from extended-usage.rst (overlay merge, generated key, map lookup, skip > only, validity, load / dump behaviour incl. extra_in / extra_out / omit_default / list gaps)",
+        "technique": "property-based testing against a reference model: Hypothesis-generated (model shape, 1-4 stacked name_mapping providers from the full parameter grammar) programs, each evaluated under the three debug modes on inputs built by walking the reference layout (every mapped key present / absent / ill-typed, container nodes of right / wrong kind, unknown keys, short / long lists); oracle = independent reference layout model written from extended-usage.rst (overlay merge, generated key, map lookup, skip > only, validity, load / dump behaviour incl. extra_in / extra_out / omit_default / list gaps) Plus two exhaustive side tables: omit_default by equality for defaults without a literal form (mixed-in enum members, Decimal ...) x identical / equal / different values; a name_mapping bound to an ancestor class laid out alike in child and grandchild.",
         "text": "Exploration over generated loader / dumper programs: creation validity, loaded objects and delivered extras, error classification (ALL: multiset of absolute trails + key sets; FIRST / DISABLE: membership), dumped data with exact types.",
         "note": "Trusted: the reference layout model (props/c03_model_layout.py, section RefLayout). Modelled as observed and consistent between loader and dumper: TypedDict fields ordered by name in list layouts, containers of nested paths always dumped / required. Two open known findings (container skeleton in collected extras - pinned by the suite; omit_default compares the dumped value).",
     },
@@ -47,12 +47,12 @@ CHECKS = {
         "engine": "enumeration+hypothesis",
     },
     "C17": {
-        "technique": "differential property-based testing across model kinds: one generated logical model is realised as dataclass / NamedTuple / TypedDict / attrs / pydantic / SQLAlchemy classes (documented limitations as applicability predicates); loads, dumps, error structures, name_mapping effects and inter-kind converters are compared pairwise Plus an exhaustive family of models whose constructor parameter is not the field id (attrs private / alias, pydantic alias; positional, keyword-only, after a skipped optional): loaded under 3 debug modes and converted from each other.",
+        "technique": "differential property-based testing across model kinds: one generated logical model is realised as dataclass / NamedTuple / TypedDict / attrs / pydantic / SQLAlchemy classes (documented limitations as applicability predicates); loads, dumps, error structures, name_mapping effects and inter-kind converters are compared pairwise Plus an exhaustive family of models whose constructor parameter is not the field id (attrs private / alias, pydantic alias; positional, keyword-only, after a skipped optional): loaded under 3 debug modes and converted from each other. Plus parent / child twins per model kind with providers bound to the parent class.",
         "text": "Exploration: the same input must load to field-wise equal objects, equal objects must dump to equal data, bad input must produce the same flattened error structure (ALL mode), converters between kinds must copy every field.",
         "note": "Trusted: the per-kind class builders and the applicability predicates transcribed from docs/reference/integrations.rst.",
     },
     "C11": {
-        "technique": "stateful (model-based) property-based testing: Hypothesis RuleBasedStateMachine generates histories of facade calls over a pool of mutually confusable hints (plus replace/extend, LRU churn, failing requests); after every step a probe battery is compared between the warm objects and a freshly constructed equal retort",
+        "technique": "stateful (model-based) property-based testing: Hypothesis RuleBasedStateMachine generates histories of facade calls over a pool of mutually confusable hints (plus replace/extend, LRU churn, failing requests); after every step a probe battery is compared between the warm objects and a freshly constructed equal retort The pool holds models with equal-but-not-identical defaults (False / 0 / 0.0, True / 1) under an omit_default recipe.",
         "text": "Exploration over generated call histories (up to 40 steps): warm and fresh retorts must give the same outcomes, loaders obtained earlier must keep answering the same, replace()/extend() must not change the original.",
         "note": "Trusted: the differential oracle (fresh retort built with the same arguments from provider objects of its own); structural comparison of results and flattened exceptions.",
         "engine": "hypothesis-stateful",
@@ -63,17 +63,17 @@ CHECKS = {
         "note": "Trusted: the canary (vkit_canary) and the flat layout reference; open known finding C19-nfkc-typeddict-key is excluded by construction for ~97% of the budget and still probed.",
     },
     "C08": {
-        "technique": "property-based testing with instrumented generated models: constructors of generated dataclass / attrs / plain / NamedTuple / pydantic models log their call; defaults and factories come from a look-alike dictionary; the call log is bound to the signature and the result compared type-exactly with direct construction",
+        "technique": "property-based testing with instrumented generated models: constructors of generated dataclass / attrs / plain / NamedTuple / pydantic models log their call; defaults and factories come from a look-alike dictionary; the call log is bound to the signature and the result compared type-exactly with direct construction The input mapping is a generated dimension (dict, defaultdict, Counter, dict with __missing__, MappingProxyType, ChainMap).",
         "text": "Exploration: one constructor call per load, present values bound by identity to their own parameters, absent fields hold the true default (exact type) or a fresh factory result, hooks ran.",
         "note": "Trusted: Python's inspect.signature.bind and the model libraries' own constructors as the reference; field types are Any.",
     },
     "C15": {
-        "technique": "metamorphic property-based testing: generated type expressions with sequences of meaning-preserving rewrites (equal normal forms, hashes, loaders, dumpers, predicates) and single meaning-changing edits (unequal normal forms); idempotence; enumerated bare generics vs documented implicit parameters",
+        "technique": "metamorphic property-based testing: generated type expressions with sequences of meaning-preserving rewrites (equal normal forms, hashes, loaders, dumpers, predicates) and single meaning-changing edits (unequal normal forms); idempotence; enumerated bare generics vs documented implicit parameters Plus an exhaustive table of pairs of different classes sharing their name (enums, flags, dataclasses; other module or same module) inside reordered unions.",
         "text": "Exploration over generated spellings of one type: normalize_type must be a canonical form in both request orders (cold / warm LRU).",
         "note": "Trusted: the rewrite catalogue (each rewrite is meaning-preserving by Python typing semantics); normalize_type is the only non-facade observation point, as the property says.",
     },
     "C20": {
-        "technique": "property-based testing: generated load / dump / collected-extras / convert calls made twice on the same argument; deep before/after snapshots and a type-directed identity (id()) scan of mutable containers across both results and the argument Converter twins share the source's class environment and change dict fields as well (Optional value type / abstract Mapping origin); dump and load cases also run under non-default representations (flag_by_member_names, enum_by_name, timestamps).",
+        "technique": "property-based testing: generated load / dump / collected-extras / convert calls made twice on the same argument; deep before/after snapshots and a type-directed identity (id()) scan of mutable containers across both results and the argument Converter twins share the source's class environment and change dict fields as well (Optional value type / abstract Mapping origin); dump and load cases also run under non-default representations (flag_by_member_names, enum_by_name, timestamps). Plus load A, load B, load A again over unions with overlapping cases, and a probe that the sharing of a mutable default VALUE does not depend on its size (0..1000 elements).",
         "text": "Exploration: arguments are never mutated, repeated calls give equal results, and no mutable container adaptix builds is shared between two results or with the argument (except below Any/object positions).",
         "note": "Trusted: structural snapshot (canon) and the type-directed walk that knows the Any/object positions; one-shot inputs exempt.",
     },
@@ -83,27 +83,27 @@ CHECKS = {
         "note": "Trusted: the harness's type-aware comparator and class builder; unions are generated with provably non-overlapping, dumpable cases; values stay inside documented lossless ranges (timedelta, Pattern flags).",
     },
     "C02": {
-        "technique": "property-based testing against a reference model: Hypothesis-generated non-model type expressions x data soup / near-valid mutations x 6 modes, compared with an independent three-valued interpreter of the documented per-type rules; exhaustive small sub-check of the union dumper's MRO rule Plus an exhaustive Literal table (36 Literals with bool/int look-alikes, enum and bytes members x 25 probe data x plain/Optional/List x 6 modes) compared with the same reference.",
+        "technique": "property-based testing against a reference model: Hypothesis-generated non-model type expressions x data soup / near-valid mutations x 6 modes, compared with an independent three-valued interpreter of the documented per-type rules; exhaustive small sub-check of the union dumper's MRO rule Plus an exhaustive Literal table (36 Literals with bool/int look-alikes, enum and bytes members x 25 probe data x plain/Optional/List x 6 modes) compared with the same reference. Plus the hostile table of C04 through the reference and a dump table for a datetime in a slot declared date.",
         "text": "Exploration: accept(v) must load to a type-exactly equal value, reject must raise, unspecified is only counted; dumps must equal the documented outer form including container classes.",
         "note": "Trusted: the reference interpreter (vkit/refload.py, vkit/tspec.ref_dump) transcribed from specific-types-behavior.rst; Python constructors as the lax-coercion oracle.",
     },
     "C05": {
-        "technique": "property-based fault injection: Hypothesis-generated nested types/values/model layouts; a generated antichain of fault sites of the reference dump is corrupted; the oracle compares the multiset of absolute trails of reported leaves with the planted set (ALL), membership (FIRST), absence of trails (DISABLE) and input_value reachability",
+        "technique": "property-based fault injection: Hypothesis-generated nested types/values/model layouts; a generated antichain of fault sites of the reference dump is corrupted; the oracle compares the multiset of absolute trails of reported leaves with the planted set (ALL), membership (FIRST), absence of trails (DISABLE) and input_value reachability Plus policy-focused cases (forbidding / list-layout / flattened+forbidding models below containers).",
         "text": "Exploration: nothing lost, duplicated or spurious in ALL mode; FIRST reports exactly one planted fault with its full trail; DISABLE attaches no trail; following each trail from the root reaches the reported input_value.",
         "note": "Trusted: the harness's layout model (renames, name_style, nested paths, list layout, ExtraForbid) and fault-site enumeration; strict coercion only; a union is one leaf.",
     },
     "C06": {
-        "technique": "differential property-based testing: the three debug_trail programs (DISABLE/FIRST/ALL) of one generated specification run on fresh copies of one generated input (soup, near-valid, corrupted values for dumping)",
+        "technique": "differential property-based testing: the three debug_trail programs (DISABLE/FIRST/ALL) of one generated specification run on fresh copies of one generated input (soup, near-valid, corrupted values for dumping) Plus user loaders / dumpers that raise non-LoadError exceptions (ValueError, StopIteration) inside unions and iterables, and the list-layout / extra-field / unhashable-element / duck tables of C04 through this oracle.",
         "text": "Exploration: the modes must agree on success, on results, and the DISABLE/FIRST error must correspond (class, input value) to an error collected under ALL.",
         "note": "Trusted: structural comparator (canon); 'same class' read as 'ALL has a node that is-a the class raised' because the union loader raises bare LoadError under DISABLE (pinned by the suite).",
     },
     "C07": {
-        "technique": "differential property-based testing: strict vs lax retort on one generated (type, datum); positional walk of type and datum against the documented 'allowed strict origins' table Plus the Literal table of C02 evaluated through this property's own strict-vs-lax oracle.",
+        "technique": "differential property-based testing: strict vs lax retort on one generated (type, datum); positional walk of type and datum against the documented 'allowed strict origins' table Plus the Literal table of C02 evaluated through this property's own strict-vs-lax oracle. Plus the list-layout table of C04 (mappings with integer keys, strings, one-shot iterators for a model loaded from a list) through the same oracle.",
         "text": "Exploration: strict-accepted data must be lax-accepted with an equal value (unless unions overlap under lax rules), and strict acceptance must respect the documented origins at every position.",
         "note": "Trusted: the origins table transcription; overlap analysis (tspec.lax_safe).",
     },
     "C04": {
-        "technique": "property-based testing + coverage-guided fuzzing: (1) Hypothesis-generated type expressions x data soup (arbitrary data and near-valid mutations of valid dumps) x 6 modes with an exception-validity oracle, user-code sub-check for the second sentence; (2) Atheris / libFuzzer target (fuzz/c04_atheris.py): bytes -> table of generated loaders + recursively decoded datum, same oracle inside the target, saved cases re-run through the ordinary oracle Plus an exhaustive hostile-scalar table (type-aimed malformed strings and constructor-shaped data per scalar type, general hostile strings / numbers, an int above the int-to-str digit limit; bare / list element / dict value / dict key; 6 modes), ints above the digit limit planted into generated data, sets with unhashable element types, saturator layouts.",
+        "technique": "property-based testing + coverage-guided fuzzing: (1) Hypothesis-generated type expressions x data soup (arbitrary data and near-valid mutations of valid dumps) x 6 modes with an exception-validity oracle, user-code sub-check for the second sentence; (2) Atheris / libFuzzer target (fuzz/c04_atheris.py): bytes -> table of generated loaders + recursively decoded datum, same oracle inside the target, saved cases re-run through the ordinary oracle Plus an exhaustive hostile-scalar table (type-aimed malformed strings and constructor-shaped data per scalar type, general hostile strings / numbers, an int above the int-to-str digit limit; bare / list element / dict value / dict key; 6 modes), ints above the digit limit planted into generated data, sets with unhashable element types, saturator layouts. Plus an exhaustive duck table: dict-layout models (first looked-up field optional / required) x root data that are mappings by one method only or not at all (object with get alone, re.Match, sqlite3.Row ...).",
         "text": "Exploration: every escaping exception tree must consist of LoadError nodes only; with user code raising ArithmeticError the escaping exception must not be classified as LoadError.",
         "note": "Trusted: exception flattening helper; input nesting capped (RecursionError on over-deep data not counted); ExtraKwargs excluded (documented TypeError zone).",
     },
